@@ -2,7 +2,7 @@
 from trkgen import *
 
 ID = "C01"
-THEOREM_MODULES = ["SimVerif.Props.C01", "SimVerif.Tie.Attr", "SimVerif.Tie.Record", "SimVerif.Props.C01s", "SimVerif.Tie.Apply", "SimVerif.Props.C01t"]
+THEOREM_MODULES = ["SimVerif.Props.C01", "SimVerif.Tie.Attr", "SimVerif.Tie.Record", "SimVerif.Props.C01s", "SimVerif.Tie.Apply", "SimVerif.Props.C01t", "SimVerif.Tie.ApplyModel"]
 THEOREM_MODULE = "SimVerif.Props.C01"
 NONTRIVIAL_FLAGS = {"multi-det", "competition", "continuation", "multi-scene-batch", "multi-scene-store", "expired-uncollected", "gc-runs"}
 KINDS = ["sort", "bsort", "visual", "bvisual"]
